@@ -7,7 +7,14 @@ CFG = {
         "Parsley.C07.pngRowLoop_spec", "Parsley.C07.sumLeftLoop_spec",
         "Parsley.C07.predictor_roundtrip_samples8", "Parsley.C07.predictor_roundtrip_samples16",
         "Parsley.C07.legacy_paeth_witness", "Parsley.C07.legacy_average_witness",
+        "Parsley.C07.png_decode_sound_partial", "Parsley.C07.pngRows_reencodes",
     ],
+    "partial": {
+        "Parsley.C07.png_decode_sound_partial":
+            "converse of the round trip (whenever the decoder returns a value, that value re-encodes to its input, so it accepts "
+            "only encoder-shaped streams) is proved for the five PNG predictors at all parameters; the same converse for TIFF "
+            "predictor 2 is not proved (the statement of C07 itself - round trip and no panic - is proved in full for TIFF too)",
+    },
     "n": {"quick": 1500, "thorough": 100000},
     "exhaustive": {"quick": False, "thorough": True},
     "rule": "corpus (DESIGN section-4 defects #11-#16 and hand-built 16-bit/sub-byte/TIFF rows) first; Paeth on the real fn for all c "
